@@ -168,9 +168,24 @@ func cloneData(d *types.TxData) types.TxData {
 		}
 	}
 	for _, o := range d.Outputs {
+		if v, ok := o.TypedOutput.(*types.VoteOutput); ok {
+			c.Outputs = append(c.Outputs, types.NewVoteOutput(*o.AssetId, o.Amount, append([]byte{}, o.ControlProgram...), append([]byte{}, v.Vote...), nil))
+			continue
+		}
 		c.Outputs = append(c.Outputs, types.NewOriginalTxOutput(*o.AssetId, o.Amount, append([]byte{}, o.ControlProgram...), nil))
 	}
 	return c
+}
+
+// voteOutputs lists the positions of the vote outputs.
+func voteOutputs(d *types.TxData) []int {
+	var l []int
+	for i, o := range d.Outputs {
+		if _, ok := o.TypedOutput.(*types.VoteOutput); ok {
+			l = append(l, i)
+		}
+	}
+	return l
 }
 
 func cloneArgs(a [][]byte) [][]byte {
@@ -214,6 +229,7 @@ type spend struct {
 	tx     *types.Tx  // with the correct witnesses
 	args   [][][]byte // the correct witness of every input
 	vetoes int        // inputs that are vetoes of vote outputs
+	votes  int        // outputs that are vote outputs
 }
 
 func randHash(rng *ev.Rand) bc.Hash {
@@ -302,6 +318,11 @@ func newSpend(rng *ev.Rand) (*spend, error) {
 	d.Outputs = append(d.Outputs,
 		types.NewOriginalTxOutput(*consensus.BTMAssetID, a, randProgram(rng), nil),
 		types.NewOriginalTxOutput(*consensus.BTMAssetID, rest-a, randProgram(rng), nil))
+	if a >= consensus.MinVoteOutputAmount && rng.Chance(1, 3) {
+		// the spend pays into a vote output: which validator the vote goes to is a committed field
+		d.Outputs[0] = types.NewVoteOutput(*consensus.BTMAssetID, a, randProgram(rng), rng.Bytes(64), nil)
+		sp.votes++
+	}
 	if otherIn > 0 {
 		d.Outputs = append(d.Outputs, types.NewOriginalTxOutput(other, otherIn, randProgram(rng), nil))
 	}
@@ -627,6 +648,15 @@ func (e *engine) otherSighash(t int) {
 			o.AssetId = &a
 		}},
 		{"output-order", t, func(d *types.TxData) { d.Outputs[0], d.Outputs[1] = d.Outputs[1], d.Outputs[0] }},
+		{"output-vote-key", t, func(d *types.TxData) {
+			if vo := voteOutputs(d); len(vo) > 0 {
+				v := d.Outputs[vo[rng.Intn(len(vo))]].TypedOutput.(*types.VoteOutput)
+				v.Vote = flipped(v.Vote, rng.Intn(len(v.Vote)), rng)
+			} else { // no vote output: turn an ordinary output into a vote for somebody
+				o := d.Outputs[rng.Intn(nout)]
+				d.Outputs[0] = types.NewVoteOutput(*o.AssetId, o.Amount, o.ControlProgram, rng.Bytes(64), nil)
+			}
+		}},
 		{"output-added", t, func(d *types.TxData) {
 			d.Outputs = append(d.Outputs, types.NewOriginalTxOutput(*consensus.BTMAssetID, 1, randProgram(rng), nil))
 		}},
@@ -842,6 +872,7 @@ func TestC02(t *testing.T) {
 		}
 		e := &engine{out: c, validate: realValidate, ver: newVerifier(), sp: sp, rng: c.Rand}
 		c.Count("veto_inputs", int64(sp.vetoes))
+		c.Count("vote_outputs", int64(sp.votes))
 		if c.WantSample() {
 			var locks []string
 			for _, l := range sp.locks {
@@ -860,4 +891,5 @@ func TestC02(t *testing.T) {
 		r.Floor(name, min)
 	}
 	r.Floor("veto_inputs", 50)
+	r.Floor("vote_outputs", 50)
 }
